@@ -232,6 +232,7 @@ func NewNNSDriver(mode string) *NNSDriver {
 			nnsOp{kind: "register", name: "y.x.aa.com", who: "U1", signer: u},
 			nnsOp{kind: "add", name: "bb.com", typ: rtTXT, data: "n16", signer: u}, // bb.com starts with 15 TXT values
 			nnsOp{kind: "add", name: "bb.com", typ: rtTXT, data: "n17", signer: u},
+			nnsOp{kind: "del", name: "bb.com", typ: rtTXT, signer: u},              // empties a list that may be at capacity
 			nnsOp{kind: "add", name: "bb.com", typ: rtTXT, data: "n03", signer: u}, // duplicate of an existing value
 			nnsOp{kind: "add", name: "zz.com", typ: rtTXT, data: "t1", signer: u},  // unregistered second-level name
 			nnsOp{kind: "add", name: "aa.com", typ: rtTXT, data: "t1", signer: s("S")},
